@@ -249,6 +249,24 @@ def decrypt(case, ctx):
         xx, yy = xy
         cand = D.enc_ct(xx, yy, c3, c2)
         lab = "c1/" + lab
+    elif cls == "c3" and sel % 4 == 0:
+        # C3 with a zero byte at one end, encoded without it (31-byte OCTET STRING): a decoder that pads a short hash with zeros sees
+        # the same value.  The plaintext's last byte is varied until the hash has the zero byte (about 256 SM3 evaluations)
+        end = (sel >> 2) & 1
+        found = None
+        for t in range(2048):
+            pt2 = pt[:-1] + bytes([(pt[-1] + t) & 0xFF]) if t < 256 else bytes([(pt[0] + (t >> 8)) & 0xFF]) + pt[1:-1] + bytes([(pt[-1] + t) & 0xFF]) if len(pt) > 1 else None
+            if pt2 is None:
+                break
+            mc2 = M.encrypt_with_k(pub, pt2, k)
+            if mc2 is not None and mc2[1][-1 if end == 0 else 0] == 0:
+                found = (pt2, mc2)
+                break
+        if found is None:
+            ctx.note("no-c3-with-zero-end"); return
+        pt, ((x1, y1), c3, c2) = found
+        good = D.enc_ct(x1, y1, c3, c2)
+        cand = D.enc_ct(x1, y1, c3[:-1] if end == 0 else c3[1:], c2); lab = "c3-short/" + ("trailing" if end == 0 else "leading")
     elif cls == "c3":
         hb_ = bytearray(c3); hb_[(sel >> 3) % 32] ^= 1 << (sel & 7)
         cand = D.enc_ct(x1, y1, bytes(hb_), c2); lab = "c3-flip"
